@@ -268,6 +268,14 @@ func (w *world) poolReap(limit int, what string) []*poolTx {
 		lastNonce[ptx.acct] = ptx.nonce
 	}
 	if limit == reapAll {
+		// everything the pool holds on to stays within the sum of its bounds (waiting + pending + extra list)
+		var size int
+		if w.call(inc, "pool-size", func() { size = inc.Pool.Size() }) {
+			w.out.Evals["C19.size-bound"]++
+			if size > pm.waitLimit+2*pm.pendLimit {
+				w.viol("C19", "pool-size-exceeds-bounds", what, "the pool reports %d transactions; its waiting, pending and extra bounds add up to %d", size, pm.waitLimit+2*pm.pendLimit)
+			}
+		}
 		// an uncut list shows everything the pending queue holds: the queue has a configured bound
 		n := 0
 		for _, p := range out {
